@@ -418,3 +418,21 @@ def r12(ctx, R):
     val = [r for r in new if r[1] == 'value']
     R.check(len(ini) == 1 and member(ini[0][2], False) and any(t == 'initialize is not None' and p for t, p in ini[0][2]), 'Hooks.increment_stats :: a missing entry starts from `initialize` when it is given', w, 'elif initialize is not None: stats[key] = initialize', ini)
     R.check(len(val) == 1 and member(val[0][2], False) and any(t == 'initialize is not None' and not p for t, p in val[0][2]), 'Hooks.increment_stats :: otherwise a missing entry starts from the value', w, 'else: stats[key] = value', val)
+
+
+@rule('C14', 'C14.R13', 'superseded generations are removed GLOBALLY: filter_stats merges the records of all ranks (comm.allgather) BEFORE it removes recomputed values - the rejected attempt of a step and its recomputation live on different ranks whenever a restart moves the step to another slot, so a removal per rank leaves the superseded record in the gathered result', floor=2)
+def r13(ctx, R):
+    repo = ctx.repo
+    rel = 'pySDC/helpers/stats_helper.py'
+    fn = repo.func(rel, 'filter_stats')
+    w = f'{rel}:filter_stats'
+    R.fn(w)
+    gather = [i for i, s in enumerate(fn.body) if any(isinstance(c, ast.Call) and isinstance(c.func, ast.Attribute) and c.func.attr in ('allgather', 'gather', 'allreduce') for c in ast.walk(s))]
+    removal = [i for i, s in enumerate(fn.body) if isinstance(s, ast.If) and any(isinstance(n, ast.Name) and n.id == 'recomputed' for n in ast.walk(s.test))]
+    if len(gather) != 1 or len(removal) != 1:
+        raise AnalysisError(f'filter_stats: expected one gathering statement and one `recomputed` block at the top level, found {len(gather)} / {len(removal)} - re-confirm C14.R13')
+    R.check(gather[0] < removal[0], 'filter_stats :: the ranks are merged before superseded records are removed', w, 'comm.allgather(..) block, then the `recomputed` block', f'gather is statement #{gather[0]}, removal is statement #{removal[0]}')
+    g = fn.body[gather[0]]
+    guarded = isinstance(g, ast.If) and ast.unparse(g.test) in ('comm is not None', 'comm')
+    tgt = [ast.unparse(t) for s in ast.walk(g) if isinstance(s, ast.Assign) for t in s.targets]
+    R.check(guarded and tgt == ['result'], 'filter_stats :: the merged dictionary replaces `result` (what every later filter and the return see)', w, 'if comm is not None: result = {merge of comm.allgather(result)}', {'guard': ast.unparse(g.test) if isinstance(g, ast.If) else None, 'assigned': tgt})
